@@ -13,6 +13,20 @@ import (
 // C14 — UDP associations live as long as promised and are always reclaimed.
 func init() {
 	Register(&Scenario{Name: "c14", Prop: "C14", MaxSteps: 100000, Tick: true, Run: runC14})
+	// The same timed run shape decides C04's "while an association is alive, one
+	// source address": only the association-count oracle applies there.
+	Register(&Scenario{Name: "c04t", Prop: "C04", MaxSteps: 100000, Tick: true, Run: func(rc *RunCtx) {
+		rc.Param["as"] = "c04"
+		runC14(rc)
+		var keep []Violation
+		for _, v := range rc.Viols {
+			if v.Sig == "association-count" {
+				v.Sig = "c04:source-address-changed-before-deadline"
+				keep = append(keep, v)
+			}
+		}
+		rc.Viols = keep
+	}})
 }
 
 type c14send struct {
@@ -46,6 +60,11 @@ func runC14(rc *RunCtx) {
 	const dnsT = 17 * time.Second
 	keys := genKeys(G, 1+G.Draw(3), "")
 	m := &RecMetrics{}
+	if rc.F.Draw(4) == 1 {
+		// the forward to the target fails now and then (ENETUNREACH): the association
+		// and its deadline exist all the same
+		w.UDPWriteErr = []int{200, 600, 1000}[rc.F.Draw(3)]
+	}
 	srv := startUDPServer(rc, w, udpServerOpts{Keys: keys, Timeout: T, Metrics: m, Direct: true})
 	// targets: 0,1 are DNS servers (port 53), 2,3 are not
 	type tgt struct {
@@ -202,6 +221,24 @@ func runC14(rc *RunCtx) {
 			if n, _ := fmt.Sscanf(idOf(d.Payload), "q%d-%d", &c, &k); n == 2 {
 				sockClient[d.FromSock] = c
 			}
+		}
+	}
+	for _, sk := range outSocks {
+		if _, ok := sockClient[sk]; ok {
+			continue
+		}
+		// no datagram left this socket (every forward failed): attribute it by the
+		// scheduler step of its creation, which lies between two reads of the handler
+		best := -1
+		for i, rec := range srv.Sock.ReadLog {
+			if srv.Sock.ReadSeqs[i] <= sk.CreatedSeq {
+				if s := bySend[rec]; s != nil {
+					best = s.client
+				}
+			}
+		}
+		if best >= 0 {
+			sockClient[sk] = best
 		}
 	}
 	socksOf := map[int][]*simnet.UDPConn{}
